@@ -11,28 +11,44 @@ namespace Aiocoap.Uri
 -- well-formedness of canonical option sets -----------------------------------------------
 
 /-- a canonical IPv6 text as `str(ipaddress.IPv6Address(..))` prints it: a fixed point of the
-normaliser, containing a colon, no authority delimiters, lower-case before the zone.  These are
-assumptions about the *oracle* (Python's `ipaddress` is not modelled); the harness checks them
-on every address it generates. -/
+normaliser, containing a colon, hex digits / colons / dots before the zone identifier, lower-case
+there, not starting with `v` — these are assumptions about the *oracle* (Python's `ipaddress` is
+not modelled; the harness checks them on every address it sees) — and `zone`: the zone identifier
+consists of unreserved characters.  That one is no assumption about `ipaddress` (which takes any
+text for a zone): it is what `set_request_uri` and `_quote_host` check since the fixes. -/
 structure Ip6Text (ip : IpOracle) (t : Bytes) : Prop where
   fixed : ip.norm6 t = some t
   colon : 58 ∈ t
-  clean : ∀ c ∈ t, c ≠ 91 ∧ c ≠ 93 ∧ c ≠ 64 ∧ isNetlocDelim c = false ∧ isUnsafeWs c = false
+  addr : ∀ c ∈ before 37 t, isHex c = true ∨ c = 58 ∨ c = 46
+  zone : zoneOk t = true
   lower : lowerUntilPct t = t
   notV : t.head? ≠ some 118
+
+/-- hence no bracket, `@`, authority delimiter or dropped white space anywhere in it -/
+theorem Ip6Text.clean {ip : IpOracle} {t : Bytes} (h : Ip6Text ip t) :
+    ∀ c ∈ t, c ≠ 91 ∧ c ≠ 93 ∧ c ≠ 64 ∧ isNetlocDelim c = false ∧ isUnsafeWs c = false := by
+  intro c hc
+  simp only [isNetlocDelim, isUnsafeWs, Bool.or_eq_false_iff, beq_eq_false_iff_ne, ne_eq]
+  rcases mem_cases_pct hc with h1 | h1 | h1
+  · have := addrChar_facts (h.addr c h1)
+    omega
+  · omega
+  · have := unreserved_facts (zoneOk_iff.mp h.zone c h1)
+    omega
 
 /-- segment lists in scope: UTF-8 text, and not the degenerate `[""]` -/
 def SegsOk (segs : List Bytes) : Prop := segs ≠ [[]] ∧ ∀ s ∈ segs, s.wf ∧ utf8Valid s = true
 
 /-- a Uri-Host value as §6.4 produces it: non-empty UTF-8 text without upper-case ASCII letters
-that does not spell an IP address -/
+that does not spell an IP address.  (`notIp6` refers to the test `_quote_host` makes: an IPv6 text
+whose zone identifier is not unreserved *is* a name, e.g. `fe80::1%a?b`.) -/
 structure NameOk (ip : IpOracle) (h : Bytes) : Prop where
   ne : h ≠ []
   wf : h.wf
   utf8 : utf8Valid h = true
   lower : ∀ c ∈ h, isUpper c = false
   notIp4 : ip4Looking h = false
-  notIp6 : ((h.contains 58 || h.contains 91) && (ip.norm6 (unbracket h)).isSome) = false
+  notIp6 : passesAsAddress ip h = false
 
 def HostOk (ip : IpOracle) : Host → Prop
   | .name h => NameOk ip h
@@ -58,32 +74,160 @@ theorem coapScheme_ne_nil {s : Bytes} (h : s ∈ coapSchemes) : s ≠ [] := by
   obtain ⟨⟨c, r, rfl, _⟩, _⟩ := coapScheme_clean h
   simp
 
+-- URI characters ----------------------------------------------------------------------------
+
+/-- RFC 3986 §2: what a URI is made of — unreserved, sub-delims, the gen-delims `: / ? # [ ] @`,
+and the `%` of pct-encoded -/
+def isUriChar (c : Nat) : Bool :=
+  isUnreserved c || isSubDelim c || c == 58 || c == 47 || c == 63 || c == 35 || c == 91 ||
+    c == 93 || c == 64 || c == 37
+
+theorem uriChar_of_unreserved {c : Nat} (h : isUnreserved c = true) : isUriChar c = true := by
+  simp [isUriChar, h]
+
+theorem uriChar_of_digit {c : Nat} (h : isDigit c = true) : isUriChar c = true :=
+  uriChar_of_unreserved (by simp [isUnreserved, h])
+
+theorem uriChar_of_hex {c : Nat} (h : isHex c = true) : isUriChar c = true := by
+  apply uriChar_of_unreserved
+  simp only [isHex, isDigit, Bool.or_eq_true, Bool.and_eq_true, decide_eq_true_eq] at h
+  simp only [isUnreserved, isAlpha, isUpper, isLower, isDigit, Bool.or_eq_true, Bool.and_eq_true,
+    decide_eq_true_eq, beq_iff_eq]
+  omega
+
+theorem uriChar_of_addrChar {c : Nat} (h : isHex c = true ∨ c = 58 ∨ c = 46) : isUriChar c = true := by
+  rcases h with h | rfl | rfl
+  · exact uriChar_of_hex h
+  · decide
+  · decide
+
+theorem uriChar_of_schemeChar {c : Nat} (h : isSchemeChar c = true) : isUriChar c = true := by
+  simp only [isSchemeChar, Bool.or_eq_true, beq_iff_eq] at h
+  rcases h with (((h | h) | rfl) | rfl) | rfl
+  · exact uriChar_of_unreserved (by simp [isUnreserved, h])
+  · exact uriChar_of_digit h
+  · decide
+  · decide
+  · decide
+
+theorem quote_uriChars {S : Nat → Bool} (hS : ∀ c, S c = true → isUriChar c = true) {s : Bytes}
+    (hs : s.wf) : ∀ c ∈ quote S s, isUriChar c = true := by
+  intro c hc
+  rcases quote_mem hs hc with h | rfl | h | h
+  · exact hS c h
+  · decide
+  · exact uriChar_of_digit (by simp [isDigit, h.1, h.2])
+  · exact uriChar_of_hex (by simp [isHex, h.1, h.2])
+
+theorem pathSafe_uri {c : Nat} (h : pathSafe c = true) : isUriChar c = true := by
+  simp only [pathSafe, Bool.or_eq_true, beq_iff_eq] at h
+  rcases h with ((h | h) | rfl) | rfl
+  · simp [isUriChar, h]
+  · simp [isUriChar, h]
+  · decide
+  · decide
+
+theorem querySafe_uri {c : Nat} (h : querySafe c = true) : isUriChar c = true := by
+  simp only [querySafe, Bool.or_eq_true, Bool.and_eq_true, beq_iff_eq] at h
+  rcases h with ((((h | h) | rfl) | rfl) | rfl) | rfl
+  · simp [isUriChar, h]
+  · simp [isUriChar, h.1]
+  · decide
+  · decide
+  · decide
+  · decide
+
+theorem regNameSafe_uri {c : Nat} (h : regNameSafe c = true) : isUriChar c = true := by
+  simp only [regNameSafe, Bool.or_eq_true] at h
+  rcases h with h | h
+  · simp [isUriChar, h]
+  · simp [isUriChar, h]
+
+theorem encodePath_uriChars {segs : List Bytes} (h : ∀ s ∈ segs, s.wf) :
+    ∀ c ∈ encodePath segs, isUriChar c = true := by
+  intro c hc
+  cases segs with
+  | nil =>
+    simp only [encodePath, List.mem_singleton] at hc
+    subst hc; decide
+  | cons s t =>
+    simp only [encodePath, List.mem_flatMap, List.mem_cons] at hc
+    obtain ⟨seg, hseg, hc⟩ := hc
+    rcases hc with rfl | hc
+    · decide
+    · exact quote_uriChars (fun _ => pathSafe_uri) (h seg (by simpa using hseg)) c hc
+
+theorem encodeQuery_uriChars {segs : List Bytes} (h : ∀ s ∈ segs, s.wf) :
+    ∀ c ∈ encodeQuery segs, isUriChar c = true := by
+  intro c hc
+  rcases mem_joinWith hc with rfl | ⟨s, hs, hcs⟩
+  · decide
+  · simp only [List.mem_map] at hs
+    obtain ⟨seg, hseg, rfl⟩ := hs
+    exact quote_uriChars (fun _ => querySafe_uri) (h seg hseg) c hcs
+
+/-- a URI composed of a CoAP scheme, an authority of URI characters and encoded segment lists
+consists of URI characters -/
+theorem render_uriChars {s n : Bytes} {path query : List Bytes} (hs : s ∈ coapSchemes)
+    (hn : ∀ c ∈ n, isUriChar c = true) (hp : SegsOk path) (hq : SegsOk query) :
+    ∀ c ∈ render s n (encodePath path) (encodeQuery query), isUriChar c = true := by
+  intro c hc
+  rw [render_eq (coapScheme_ne_nil hs)] at hc
+  simp only [List.mem_append, List.mem_cons] at hc
+  rcases hc with h | rfl | rfl | rfl | h | h | h
+  · exact uriChar_of_schemeChar ((coapScheme_clean hs).2 c h).1
+  · decide
+  · decide
+  · decide
+  · exact hn c h
+  · exact encodePath_uriChars (fun x hx => (hp.2 x hx).1) c h
+  · rcases mem_queryPart h with rfl | h
+    · decide
+    · exact encodeQuery_uriChars (fun x hx => (hq.2 x hx).1) c h
+
+/-- ... and URI characters only -/
+theorem Ip6Text.uriChars {ip : IpOracle} {t : Bytes} (h : Ip6Text ip t) :
+    ∀ c ∈ t, isUriChar c = true := by
+  intro c hc
+  rcases mem_cases_pct hc with h1 | h1 | h1
+  · exact uriChar_of_addrChar (h.addr c h1)
+  · subst h1; decide
+  · exact uriChar_of_unreserved (zoneOk_iff.mp h.zone c h1)
+
 -- what set_request_uri needs to know about a netloc --------------------------------------
 
-structure NetlocFacts (ip : IpOracle) (n : Bytes) (uriHost : Option Bytes) : Prop where
+/-- `n` is an authority text that `set_request_uri` takes, `n'` the `hostinfo` of the remote it
+builds from it (`n` itself, unless `n` holds an IPv6 literal that is not written canonically) -/
+structure NetlocFactsTo (ip : IpOracle) (n n' : Bytes) (uriHost : Option Bytes) : Prop where
   clean : ∀ c ∈ n, isNetlocDelim c = false ∧ isUnsafeWs c = false
+  uriChars : ∀ c ∈ n, isUriChar c = true
   brackets : bracketsOk ip n = true
   hostname : ∃ hn, hostnameOf n = some hn ∧
     ((n.head? == some 91 || ip4Looking hn) = true ∧ uriHost = none ∨
      (n.head? == some 91 || ip4Looking hn) = false ∧
         ∃ h, unquoteStrict hn = some h ∧ uriHost = some (asciiLower h))
   userinfo : hasUserinfo n = false
+  literal : literalOk n = true
   port : ∃ p, portOf n = some p
-  undecided : undecidedHostinfo ip n = some n
+  undecided : undecidedHostinfo ip n = some n'
 
-theorem fromParsed_of_facts {ip : IpOracle} {s n : Bytes} {uriHost : Option Bytes}
-    {path query : List Bytes} (hs : s ∈ coapSchemes) (hn : NetlocFacts ip n uriHost)
+/-- the canonical authorities: the remote keeps the text as it is -/
+abbrev NetlocFacts (ip : IpOracle) (n : Bytes) (uriHost : Option Bytes) : Prop :=
+  NetlocFactsTo ip n n uriHost
+
+theorem fromParsed_of_facts {ip : IpOracle} {s n n' : Bytes} {uriHost : Option Bytes}
+    {path query : List Bytes} (hs : s ∈ coapSchemes) (hn : NetlocFactsTo ip n n' uriHost)
     (hp : SegsOk path) (hq : SegsOk query) :
     fromParsed ip { scheme := s, netloc := n, path := encodePath path, query := encodeQuery query,
                     fragment := [] }
-      = .ok { scheme := s, hostinfo := n, uriHost := uriHost, uriPort := none,
+      = .ok { scheme := s, hostinfo := n', uriHost := uriHost, uriPort := none,
               path := path, query := query } := by
   obtain ⟨hn', hhn, hlit⟩ := hn.hostname
   obtain ⟨p, hport⟩ := hn.port
   unfold fromParsed
   have hsc : coapSchemes.contains s = true := by simpa using hs
   simp only [ne_eq, not_true_eq_false, ↓reduceIte, coapScheme_ne_nil hs, hsc, Bool.not_true,
-    Bool.false_eq_true, hhn, hn.userinfo, decodePath_encodePath hp.1 hp.2,
+    Bool.false_eq_true, hhn, hn.userinfo, hn.literal, decodePath_encodePath hp.1 hp.2,
     decodeQuery_encodeQuery hq.1 hq.2, hport, hn.undecided]
   rcases hlit with ⟨h1, h2⟩ | ⟨h1, h, h2, h3⟩
   · rw [if_pos h1, h2]
@@ -91,11 +235,11 @@ theorem fromParsed_of_facts {ip : IpOracle} {s n : Bytes} {uriHost : Option Byte
     simp only [h2, h3]
 
 /-- composing from clean parts and parsing again -/
-theorem setRequestUri_render {ip : IpOracle} {s n : Bytes} {uriHost : Option Bytes}
-    {path query : List Bytes} (hs : s ∈ coapSchemes) (hn : NetlocFacts ip n uriHost)
+theorem setRequestUri_render {ip : IpOracle} {s n n' : Bytes} {uriHost : Option Bytes}
+    {path query : List Bytes} (hs : s ∈ coapSchemes) (hn : NetlocFactsTo ip n n' uriHost)
     (hp : SegsOk path) (hq : SegsOk query) :
     setRequestUri ip (render s n (encodePath path) (encodeQuery query))
-      = .ok { scheme := s, hostinfo := n, uriHost := uriHost, uriPort := none,
+      = .ok { scheme := s, hostinfo := n', uriHost := uriHost, uriPort := none,
               path := path, query := query } := by
   have hclean : CleanParts s n (encodePath path) (encodeQuery query) :=
     { scheme_head := (coapScheme_clean hs).1
